@@ -45,11 +45,12 @@ const (
 	vc08StoredOptOptions = "stored-opt-options" // OPT with options the cloner pools
 	vc08StoredOptOther   = "stored-opt-other"   // OPT with an option the cloner copies
 	vc08StoredNoOpt      = "stored-no-opt"
+	vc08StoredBig        = "stored-big" // OPT with Option == nil, ~2.5 KiB of pooled TXT records
 )
 
 var vc08StoredKinds = []string{
 	vc08StoredOptEmpty, vc08StoredOptEmpty, vc08StoredOptEmpty,
-	vc08StoredOptOptions, vc08StoredOptOther, vc08StoredNoOpt,
+	vc08StoredOptOptions, vc08StoredOptOther, vc08StoredNoOpt, vc08StoredBig,
 }
 
 // vc08Stored builds the stored message of the given kind; it is never handed
@@ -60,6 +61,12 @@ func vc08Stored(t *rapid.T, kind string) (m *dns.Msg) {
 	m.RecursionAvailable = true
 	for i, n := 0, rapid.IntRange(0, 3).Draw(t, "storedAnswers"); i < n; i++ {
 		m.Answer = append(m.Answer, &dns.A{Hdr: vc08Hdr(vc08SeqName, dns.TypeA, 300), A: net.IP{192, 0, 2, byte(i + 1)}})
+	}
+
+	if kind == vc08StoredBig {
+		for i := 0; i < 36; i++ {
+			m.Answer = append(m.Answer, &dns.TXT{Hdr: vc08Hdr(vc08SeqName, dns.TypeTXT, 300), Txt: []string{fmt.Sprintf("big-%02d-%s", i, strings.Repeat("t", 40+i%7))}})
+		}
 	}
 
 	if len(m.Answer) == 0 {
@@ -98,36 +105,107 @@ func vc08Stored(t *rapid.T, kind string) (m *dns.Msg) {
 	return m
 }
 
-// vc08SeqReq draws a query for the fixed question.
-func vc08SeqReq(t *rapid.T, wantKA, wantPad bool) (req *dns.Msg, f vc08ReqFacts) {
+// vc08SeqParams is everything that distinguishes one step of a history.
+type vc08SeqParams struct {
+	Tr     vc08Transport
+	Kind   string
+	HasOpt bool
+	Adv    uint16
+	DO     bool
+	KA     bool
+	Pad    int // -1: none
+	Cookie bool
+}
+
+// vc08SeqDraw draws the EDNS part of a step.
+func vc08SeqDraw(t *rapid.T, p *vc08SeqParams, wantKA, wantPad bool) {
+	p.Pad = -1
+	p.HasOpt = wantKA || wantPad || rapid.IntRange(0, 5).Draw(t, "hasOpt") != 0
+	if !p.HasOpt {
+		return
+	}
+
+	p.Adv = rapid.SampledFrom([]uint16{0, 512, 1232, 4096, 65535}).Draw(t, "adv")
+	p.DO = rapid.Bool().Draw(t, "do")
+	p.KA = wantKA || rapid.IntRange(0, 3).Draw(t, "ka") == 0
+	if wantPad || rapid.IntRange(0, 3).Draw(t, "pad") == 0 {
+		p.Pad = rapid.IntRange(0, 32).Draw(t, "padLen")
+	}
+
+	p.Cookie = rapid.IntRange(0, 4).Draw(t, "cookie") == 0
+}
+
+// vc08SeqNearMiss changes exactly one component of p that the write path must
+// tell apart.
+func vc08SeqNearMiss(t *rapid.T, p *vc08SeqParams, all []vc08Transport) (what string) {
+	for {
+		switch rapid.IntRange(0, 5).Draw(t, "nearMiss") {
+		case 0:
+			if p.KA {
+				p.KA = false
+
+				return "drop-keepalive"
+			}
+		case 1:
+			if p.Pad >= 0 {
+				p.Pad = -1
+
+				return "drop-padding"
+			}
+		case 2:
+			if p.HasOpt {
+				*p = vc08SeqParams{Tr: p.Tr, Kind: p.Kind, Pad: -1}
+
+				return "drop-opt"
+			}
+		case 3:
+			if tr := rapid.SampledFrom(all).Draw(t, "nearMissTr"); tr != p.Tr {
+				p.Tr = tr
+
+				return "other-transport"
+			}
+		case 4:
+			if p.Kind != vc08StoredOptEmpty {
+				p.Kind = vc08StoredOptEmpty
+
+				return "stored-opt-emptied"
+			}
+		default:
+			if p.HasOpt {
+				p.Adv ^= 1
+
+				return "adv-off-by-one"
+			}
+		}
+	}
+}
+
+// vc08SeqReq builds the query of a step for the fixed question.
+func vc08SeqReq(p *vc08SeqParams, id uint16) (req *dns.Msg, f vc08ReqFacts) {
 	f = vc08ReqFacts{Name: vc08SeqName, Qtype: vc08SeqQtype, Pad: -1, NSID: -1}
 	req = (&dns.Msg{}).SetQuestion(f.Name, f.Qtype)
-	req.Id = rapid.Uint16().Draw(t, "id")
-	f.HasOpt = wantKA || wantPad || rapid.IntRange(0, 5).Draw(t, "hasOpt") != 0
+	req.Id = id
+	f.HasOpt = p.HasOpt
 	if !f.HasOpt {
 		return req, f
 	}
 
-	f.UDPSize = rapid.SampledFrom([]uint16{0, 512, 1232, 4096, 65535}).Draw(t, "adv")
-	f.DO = rapid.Bool().Draw(t, "do")
+	f.UDPSize, f.DO, f.KeepAlive, f.Pad, f.Cookie = p.Adv, p.DO, p.KA, p.Pad, p.Cookie
 	opt := &dns.OPT{Hdr: dns.RR_Header{Name: ".", Rrtype: dns.TypeOPT}}
 	opt.SetUDPSize(f.UDPSize)
 	if f.DO {
 		opt.SetDo()
 	}
 
-	if wantKA || rapid.IntRange(0, 3).Draw(t, "ka") == 0 {
-		f.KeepAlive = true
+	if f.KeepAlive {
 		opt.Option = append(opt.Option, &dns.EDNS0_TCP_KEEPALIVE{Code: dns.EDNS0TCPKEEPALIVE})
 	}
 
-	if wantPad || rapid.IntRange(0, 3).Draw(t, "pad") == 0 {
-		f.Pad = rapid.IntRange(0, 32).Draw(t, "padLen")
+	if f.Pad >= 0 {
 		opt.Option = append(opt.Option, &dns.EDNS0_PADDING{Padding: make([]byte, f.Pad)})
 	}
 
-	if rapid.IntRange(0, 4).Draw(t, "cookie") == 0 {
-		f.Cookie = true
+	if f.Cookie {
 		opt.Option = append(opt.Option, &dns.EDNS0_COOKIE{Code: dns.EDNS0COOKIE, Cookie: "0102030405060708"})
 	}
 
@@ -168,8 +246,9 @@ func Vc08RunRecycle(t *testing.T, newCloner func() (c Vc08Cloner)) {
 
 	st := vstat.New("C08", "dnsserver.recycle",
 		"rapid histories of 2-6 queries for one question over drawn transports against servers whose Disposer is one production dnsmsg.Cloner (fresh per history) and whose handler answers with cloner.Clone(stored message: OPT without options / OPT with pooled options / OPT with a copied option / no OPT); every response is judged by the same per-response oracle as the transports part; non-trivial = the history contains a response that had keep-alive or padding appended and was disposed of, followed by a response cloned from a stored OPT without options for a client that did not send that option; distinct by the sequence of (transport, stored kind, request EDNS settings)",
-		patternClass, vc08StoredOptEmpty, vc08StoredOptOptions, vc08StoredOptOther, vc08StoredNoOpt,
-		"polluter:keepalive", "polluter:padding")
+		patternClass, vc08StoredOptEmpty, vc08StoredOptOptions, vc08StoredOptOther, vc08StoredNoOpt, vc08StoredBig,
+		"polluter:keepalive", "polluter:padding", "near-miss-step",
+		"near-miss:drop-keepalive", "near-miss:drop-padding", "near-miss:drop-opt", "near-miss:other-transport")
 	st.Finish(t)
 
 	e := vc08NewEnv()
@@ -193,30 +272,53 @@ func Vc08RunRecycle(t *testing.T, newCloner func() (c Vc08Cloner)) {
 		steps := make([]vc08SeqStep, 0, n)
 		var classes, key []string
 		pollutedKA, pollutedPad, pattern := false, false, false
+		var prev vc08SeqParams
+		var prevCap uint16
+		var prevStored *dns.Msg
 		for i := 0; i < n; i++ {
-			// Most histories open with a response that gets an option appended
-			// on a transport whose responses are disposed of.
-			var tr vc08Transport
-			wantKA, wantPad := false, false
-			switch polluter := rapid.IntRange(0, 9).Draw(t, "polluter"); {
+			// Most steps are either a response that gets an option appended on a
+			// transport whose responses are disposed of, or a near miss of the
+			// previous step: the same step with exactly one component changed.
+			var p vc08SeqParams
+			nearMiss := false
+			switch polluter := rapid.IntRange(0, 12).Draw(t, "stepKind"); {
 			case polluter < 3 && i < n-1:
-				tr = rapid.SampledFrom([]vc08Transport{vc08TCP, vc08DoT}).Draw(t, "trKA")
-				wantKA = true
+				p.Tr = rapid.SampledFrom([]vc08Transport{vc08TCP, vc08DoT}).Draw(t, "trKA")
+				p.Kind = rapid.SampledFrom(vc08StoredKinds).Draw(t, "stored")
+				vc08SeqDraw(t, &p, true, false)
 			case polluter < 6 && i < n-1:
-				tr = rapid.SampledFrom([]vc08Transport{vc08DoT, vc08DoH, vc08DoQ}).Draw(t, "trPad")
-				wantPad = true
+				p.Tr = rapid.SampledFrom([]vc08Transport{vc08DoT, vc08DoH, vc08DoQ}).Draw(t, "trPad")
+				p.Kind = rapid.SampledFrom(vc08StoredKinds).Draw(t, "stored")
+				vc08SeqDraw(t, &p, false, true)
+			case polluter < 10 && i > 0:
+				p = prev
+				nearMiss = true
+				classes = append(classes, "near-miss-step", "near-miss:"+vc08SeqNearMiss(t, &p, all))
 			default:
-				tr = rapid.SampledFrom(all).Draw(t, "tr")
+				p.Tr = rapid.SampledFrom(all).Draw(t, "tr")
+				p.Kind = rapid.SampledFrom(vc08StoredKinds).Draw(t, "stored")
+				vc08SeqDraw(t, &p, false, false)
 			}
 
-			cap := rapid.SampledFrom([]uint16{0, 512, 1232, 4096, 65535}).Draw(t, "cap")
-			kind := rapid.SampledFrom(vc08StoredKinds).Draw(t, "stored")
-			stored := vc08Stored(t, kind)
-			req, rf := vc08SeqReq(t, wantKA, wantPad)
+			// A near miss keeps the configured maximum and, unless the stored
+			// kind is the changed component, the very same stored message (it is
+			// only ever cloned, never written).
+			tr, kind := p.Tr, p.Kind
+			cap, stored := prevCap, prevStored
+			if !nearMiss {
+				cap = rapid.SampledFrom([]uint16{0, 512, 1232, 4096, 65535}).Draw(t, "cap")
+			}
+
+			if !nearMiss || kind != prev.Kind {
+				stored = vc08Stored(t, kind)
+			}
+
+			prev, prevCap, prevStored = p, cap, stored
+			req, rf := vc08SeqReq(&p, rapid.Uint16().Draw(t, "id"))
 			pf := vc08StoredFacts(stored, req, rf, kind)
 
 			step := vc08SeqStep{Transport: tr.String(), Stored: kind, Req: rf}
-			if kind == vc08StoredOptEmpty &&
+			if (kind == vc08StoredOptEmpty || kind == vc08StoredBig) &&
 				(pollutedKA && !rf.KeepAlive || pollutedPad && !(tr.encrypted() && rf.Pad >= 0)) {
 				step.Recycle = true
 				pattern = true
